@@ -171,6 +171,20 @@ Definition to_end (t : nat) (r : reply) (bl : bool) (rest : list item) (amt : op
       else (all, false, it)
   end.
 
+(* rc: release_conn() closes the connection when the body has not been read to its end (a fact of the source) *)
+Section Release.
+Variable rc : bool.
+
+(* nothing of the body is outstanding although the caller has read none of it: length_remaining is 0 *)
+Definition nothing_to_read (r : reply) (bl : bool) : bool :=
+  bl || (match k_framing r with FLen => Nat.eqb (k_n r) 0 | _ => false end).
+(* release_conn() on a response that was not read to its end *)
+Definition released_unread (keep : bool) (rest : list item) : after := if rc then AClosedPut else fin keep rest.
+
+(* read(k) has read the body to its end, framing included *)
+Definition read_to_end (r : reply) (bl : bool) (k : nat) : bool :=
+  bl || match k_framing r with FLen => Nat.leb (k_n r) k | FChunked => Nat.ltb (k_n r) k | FEof => false end.
+
 Definition respond (t : nat) (r : reply) (bl : bool) (rest : list item) (c : caller)
   : list (nat * nat) * bool * after :=
   let keep := k_keep r in
@@ -183,13 +197,16 @@ Definition respond (t : nat) (r : reply) (bl : bool) (rest : list item) (c : cal
       let '(d, err, it) := to_end t r bl rest (Some (Nat.max a 1)) in (d, err, if err then AClosedPut else fin keep it)
   | CReadK k =>
       if bl || Nat.leb (k_n r) k && negb (match k_framing r with FEof => true | _ => false end) then
-        let '(d, err, it) := to_end t r bl rest None in (d, err, if err then AClosedPut else fin keep it)
+        (* every byte of the body is delivered; http.client has closed the response only if it has also seen the end of
+           the framing (a chunked body: the last-chunk line, read with the next byte asked for) *)
+        let '(d, err, it) := to_end t r bl rest None in
+        (d, err, if err then AClosedPut else if read_to_end r bl k then fin keep it else released_unread keep it)
       else
         let '(ch, have, it, short) := pull k (k_first r) rest in
         let all := (t, k_first r) :: ch in
         match k_framing r with
         | FEof => (take_bytes (Nat.min k have) all, false, AClosedPut)
-        | _ => if short then ([], true, AClosedPut) else (take_bytes k all, false, fin keep it)
+        | _ => if short then ([], true, AClosedPut) else (take_bytes k all, false, released_unread keep it)
         end
   | CRead1 k =>
       (* read1 does at most one raw read: what is buffered with the headers, else the next segment *)
@@ -211,8 +228,8 @@ Definition respond (t : nat) (r : reply) (bl : bool) (rest : list item) (c : cal
            | _, IJunk t' :: more => ([(t', 1)], false, ALost)
            | _, _ => ([], true, AClosedPut)
            end
-  | CRelease => ([], false, fin keep rest)
-  | CKeep => ([], false, if keep then APut rest true else AClosedPut)
+  | CRelease => ([], false, if nothing_to_read r bl then fin keep rest else released_unread keep rest)
+  | CKeep => ([], false, if rc && negb (nothing_to_read r bl) then AClosedPut else if keep then APut rest true else AClosedPut)
   | CClose => ([], false, ALost)
   end.
 
@@ -286,3 +303,4 @@ Fixpoint run_history (fuel M : nat) (st : state) (i : nat) (reqs : list request)
       let '(st1, res) := urlopen fuel M st i rq None in
       res :: match r_outcome res with OScriptEnd => [] | _ => run_history fuel M st1 (S i) more end
   end.
+End Release.
